@@ -18,12 +18,15 @@ package sfnt
 
 import (
 	"fmt"
+	"slices"
 	"strings"
 
+	"golang.org/x/exp/maps"
 	"seehuhn.de/go/postscript/type1/names"
 
 	"seehuhn.de/go/sfnt/cff"
 	"seehuhn.de/go/sfnt/glyf"
+	"seehuhn.de/go/sfnt/glyph"
 	"seehuhn.de/go/sfnt/opentype/gtab"
 )
 
@@ -113,7 +116,7 @@ func (f *Font) MakeGlyphNames() []string {
 			for _, subtable := range lookup.Subtables {
 				switch subtable := subtable.(type) {
 				case *gtab.Gsub1_1:
-					for origGid := range subtable.Cov {
+					for _, origGid := range sortedGlyphs(subtable.Cov) {
 						newGid := origGid + subtable.Delta
 						if glyphNames[origGid] == "" || glyphNames[newGid] != "" {
 							continue
@@ -121,7 +124,8 @@ func (f *Font) MakeGlyphNames() []string {
 						glyphNames[newGid] = makeVariant(used, glyphNames[origGid])
 					}
 				case *gtab.Gsub1_2:
-					for origGid, idx := range subtable.Cov {
+					for _, origGid := range sortedGlyphs(subtable.Cov) {
+						idx := subtable.Cov[origGid]
 						newGid := subtable.SubstituteGlyphIDs[idx]
 						if glyphNames[origGid] == "" || glyphNames[newGid] != "" {
 							continue
@@ -129,7 +133,8 @@ func (f *Font) MakeGlyphNames() []string {
 						glyphNames[newGid] = makeVariant(used, glyphNames[origGid])
 					}
 				case *gtab.Gsub3_1:
-					for origGid, idx := range subtable.Cov {
+					for _, origGid := range sortedGlyphs(subtable.Cov) {
+						idx := subtable.Cov[origGid]
 						if glyphNames[origGid] == "" {
 							continue
 						}
@@ -141,7 +146,8 @@ func (f *Font) MakeGlyphNames() []string {
 					}
 				case *gtab.Gsub4_1:
 					var nn []string
-					for origGid, idx := range subtable.Cov {
+					for _, origGid := range sortedGlyphs(subtable.Cov) {
+						idx := subtable.Cov[origGid]
 						name := glyphNames[origGid]
 						if name == "" {
 							continue
@@ -185,6 +191,15 @@ func (f *Font) MakeGlyphNames() []string {
 		}
 	}
 	return glyphNames
+}
+
+// sortedGlyphs returns the keys of m in increasing order.  The generated
+// names depend on the order in which substitution rules are visited, so
+// this order must not be the (random) map iteration order.
+func sortedGlyphs[T any](m map[glyph.ID]T) []glyph.ID {
+	keys := maps.Keys(m)
+	slices.Sort(keys)
+	return keys
 }
 
 func makeVariant(used map[string]bool, basename string) string {
